@@ -7,6 +7,10 @@ HOOK_COMMITS = ["189fd6a"]
 
 # id -> (technique, level text, level note, design ref)
 CLAIMED = {
+ "C08": ("Lean 4 proof that the transcribed Login accepts exactly the regular acceptance language (both flows) + correspondence with Channel.Login against a scripted peer (all single-edit mutants of the valid scripts)",
+         "Proof: for every configuration and every sequence of delivered packages, the model of Channel.Login reports success iff the sequence is a valid acceptance (plain: LOGINACK(SUCCEED), DONE(FINAL); encrypted: LOGINACK(NEGOTIATE), MSG(ENCRYPT4), PARAMFMT(3), PARAMS(INT4=1, key, nonce) with a usable key, DONE, then after any non-acknowledgement packages LOGINACK(SUCCEED), CAPABILITY not all-zero, DONE(FINAL)); every other sequence is an error or a wait bounded by the context, never a crash. The model is tied to login.go by running the real Login against a scripted in-memory peer on the valid scripts, all single-edit mutants and random multi-edit scripts; the oracle also checks Caps and PacketSize after success. The vacuous final-DONE check was found and repaired (fc85caa).",
+         "Trusted: Lean kernel; hand transcription of login.go tied by the harness; RSA/PEM handling is a parameter (keyOK) exercised with a real 1024-bit key; replies are sequences of well-formed packages (byte-level malformation is C10); wall-clock bound of the wait = the caller's context (partial: modelled as the outcome `blocked`).",
+         "DESIGN.md §7 C08"),
  "C17": ("Lean 4 totality and round-trip proofs over the byte-level transcription of dsn.ParseSimple/FormatSimple/tagToField + correspondence incl. invalid UTF-8; URI form by oracle on the real code",
          "Proof (simple form): for all struct shapes, states and byte strings parseSimple never panics (every Go index/slice is an explicit bounds check in the model); parse(format(m)) = m for all string values free of quotes, backslashes, control bytes that %q leaves unchanged, all bools, all int64; a later key or alias overrides an earlier one; a key matching no field (including the empty key) is rejected. The URI form (net/url) is not modelled: it is covered by the property oracle on the real FormatURI/ParseURI only (stated as partial). Four panics, the KEY-substring defect and the empty-key alias were found and repaired.",
          "Trusted: Lean kernel; %q of non-ASCII runes, strconv.ParseBool/ParseInt, sort.Strings, reflection (embedded structs flattened, json names distinct), net/url for the URI leg; model tied to the code by the harness. Known finding: non-printable non-control runes do not round-trip in the simple form.",
